@@ -1,6 +1,6 @@
 // property=C20 group=origins harness=c20_vcs_xor_soft
-// check: C20: project type is neither vcs nor soft
-// at src/lib.rs:23 in c20_vcs_xor_soft
+// check: C20: project type is both vcs and soft
+// at src/lib.rs:24 in c20_vcs_xor_soft
 // replay: ./check C20 --replay replays/C20/c20_vcs_xor_soft.5d8d01c59b.rs
 #[test]
 fn kani_concrete_playback_c20_vcs_xor_soft_5878782977062036526() {
